@@ -14,7 +14,7 @@ SHIM = os.path.join(VERIF, 'shim')
 CBMC_FLAGS = ['--bounds-check', '--pointer-check', '--signed-overflow-check', '--conversion-check',
               '--div-by-zero-check', '--pointer-overflow-check']
 OBJECT_BITS = '9'
-TIMEOUT = int(os.environ.get('VERIF_CBMC_TIMEOUT', '900'))
+TIMEOUT = int(os.environ.get('VERIF_CBMC_TIMEOUT', '1500'))
 MEMLIMIT_KB = 12000000
 
 
